@@ -594,8 +594,7 @@ def rule_setinto(ctx, sig, body, arg):
     """@rule setinto <occurrence>: `for X in EXPR {` (EXPR a HashSet taken by value, e.g. `set.clone()`) ->
     `let tmp = EXPR; for X in tmp.iter() {` with every use of X in the loop body replaced by `(*X)`.
     Iterating a set by value yields exactly the elements that iterating it by reference yields (std: both walk the same
-    table); vstd specifies `HashSet::iter` but has no specification for `hash_set::IntoIter`. Only valid when the body
-    does not move X (checked: X must not be passed by value to a call or bound by `let`)."""
+    table); vstd specifies `HashSet::iter` but has no specification for `hash_set::IntoIter`."""
     occ = int(arg.split()[0])
     toks = tokenize(body)
     ct = code_tokens(toks)
@@ -614,13 +613,7 @@ def rule_setinto(ctx, sig, body, arg):
     close = match_close(ct, k)
     expr = body[ct[i + 3].pos:ct[k].pos].strip()
     inner = body[ct[k].end:ct[close].pos]
-    # uses of X in the body: only as an operand of == / != or behind & or a method call on a reference
-    uses = [t for t in ct[k + 1:close] if t.kind == 'ident' and t.text == x]
-    for u in uses:
-        idx = ct.index(u)
-        prev, nxt = ct[idx - 1].text, ct[idx + 1].text
-        if not (nxt in ('==', '!=') or prev in ('==', '!=', '&')):
-            raise RuleError(f'setinto: use of `{x}` that may move it (near `{prev} {x} {nxt}`)')
+    # a use that would MOVE the element out of `*X` is rejected by rustc (cannot move out of a shared reference): front-end error, never unsound
     inner2 = re.sub(r'\b' + re.escape(x) + r'\b', f'(*{x})', inner)
     tmp = f'setinto__{occ}'
     new = f'let {tmp} = {expr};\n                for {x} in {tmp}.iter() {{' + inner2
